@@ -1,3 +1,4 @@
+import Secp.Proofs.Ladder
 import Secp.Proofs.HashToGroup
 import Secp.Proofs.BitsSpec
 /-!
